@@ -46,40 +46,42 @@ def classify_diff(st: dict[str, Any]) -> str:
     return "daemon-differs:missing=" + ",".join(_codes(miss)) + ":extra=" + ",".join(_codes(extra))
 
 
-def gen(ctx: common.Ctx, n_hist: int, steps: tuple[int, int]) -> Iterator[dict[str, Any]]:
+SAFE_OPS = ["sig", "body", "body_err", "extra", "add_def", "add_use", "equal_size", "touch", "base_change", "drop_uses"]
+
+
+def gen(ctx: common.Ctx, n_hist: int, steps: tuple[int, int], explore: bool = False) -> Iterator[dict[str, Any]]:
+    """core (explore=False): seed-independent histories over ALL edit operators (known daemon defects are listed per
+    history+step); exploration (explore=True): VERIF_SEED-dependent histories in the sub-space where the unchanged
+    tree has been silent over seed sweeps (content edits, cycle-free import graph, imports followed)."""
+    tag = ("C03x", ctx.seed) if explore else ("C03", "core")
     for k in range(n_hist):
-        r = common.rng_for("C03", "h", k)
+        r = common.rng_for(*tag, "h", k)
         n = r.randint(*steps)
-        follow = r.choice(["normal", "normal", "error", "skip"])
-        stream = "content" if k % 3 else "structure"
-        if os.environ.get("VERIF_C03_STREAM"):
-            stream = os.environ["VERIF_C03_STREAM"]
-        h = histgen.history(("C03", ctx.seed, k), n_steps=n, n_modules=r.randint(3, 7),
-                            ops=histgen.CONTENT_OPS if stream == "content" else None)
+        follow = "normal" if explore else r.choice(["normal", "normal", "error", "skip"])
+        stream = "safe" if explore else ("content" if k % 3 else "structure")
+        h = histgen.history((*tag, k), n_steps=n, n_modules=r.randint(3, 7), cycles=not explore,
+                            ops=SAFE_OPS if explore else (histgen.CONTENT_OPS if stream == "content" else None))
         modes = ["check"] + [r.choice(["check", "recheck", "recheck"] + (["recheck-explicit"] if follow != "normal" else []))
                              for _ in range(n - 1)]
         flags = [] if follow == "normal" else [f"--follow-imports={follow}"]
         if r.random() < 0.3:
             flags += r.choice([["--strict"], ["--warn-unreachable"], ["--disallow-any-generics"], ["--no-implicit-reexport"],
                                ["--python-version", "3.10"], ["--strict-equality"]])
-        if follow == "normal":
-            targets = ["main.py"]
-        else:
-            # without import following the daemon sees only the files it is given
-            targets = ["."]
+        targets = ["main.py"] if follow == "normal" else ["."]
         yield {"fn": "vlib.tasks.daemon:run_history",
                "args": {"versions": h["versions"], "flags": flags, "targets": targets, "modes": modes,
                         "consistency": ctx.tier == "thorough" and k % 5 == 0},
-               "_k": k, "_ops": h["ops"], "_follow": follow}
+               "_k": ("x" if explore else "core") + str(k), "_ops": h["ops"], "_follow": follow, "_explore": explore}
 
 
 def gen_corpus(ctx: common.Ctx, n: int) -> Iterator[dict[str, Any]]:
     """File versions of the repository's fine-grained scenarios as edit vocabulary, in shuffled orders."""
     cases = [c for c in corpus.load(["fine-grained*.test"]) if c.steps and not corpus.uses_fixture_only_features(c) and not c.cmd]
-    rng = common.rng_for("C03", "corpus")
+    import random
+    rng = random.Random("C03-corpus-core")   # seed-independent: known daemon defects are listed per scenario+step
     rng.shuffle(cases)
     for k, c in enumerate(cases[:n]):
-        r = common.rng_for("C03", "c", c.id)
+        r = random.Random("C03-core-" + c.id)
         ns = c.nsteps()
         vers = [c.files_at(s) for s in range(1, ns + 1)]
         order = list(range(len(vers)))
@@ -99,21 +101,23 @@ def gen_corpus(ctx: common.Ctx, n: int) -> Iterator[dict[str, Any]]:
 
 def run(ctx: common.Ctx) -> None:
     quick = ctx.tier == "quick"
-    n_hist, steps, n_corpus = (160, (6, 12), 150) if quick else (3000, (10, 40), 900)
+    n_hist, steps, n_corpus, n_expl = (110, (6, 12), 150, 60) if quick else (2000, (10, 40), 900, 1000)
     scale = float(os.environ.get("VERIF_SCALE", "1"))
-    n_hist, n_corpus = max(1, int(n_hist * scale)), int(n_corpus * scale)
-    ctx.rule = ("histgen edit history (3-7 modules, 18 definition kinds x 26 edit operators) or shuffled corpus fine-grained "
+    n_hist, n_corpus, n_expl = max(1, int(n_hist * scale)), int(n_corpus * scale), max(1, int(n_expl * scale))
+    ctx.rule = ("core: fixed histgen edit histories (3-7 modules, 18 definition kinds x 26 edit operators) and shuffled corpus fine-grained "
                 "versions, one daemon request per step; non-trivial step = daemon response compared with the full-run oracle "
                 "AND >=1 trigger fired AND >=1 target reprocessed; distinct by (edit ops, mode, follow, #targets bucket)")
     ctx.assumptions += ["logical clock: source mtimes advance 10 s per step", "oracle = batch mypy with typeshed-only base cache",
                         "daemon driven through Server.cmd_check/cmd_recheck in-process (no socket; C16 covers the channel)"]
+    ctx.assumptions += ["core workload is seed-independent (the daemon's known defects are listed per history+step); VERIF_SEED drives the exploration slice"]
     ctx.floor_nontrivial = max(2, int(n_hist * 1.0))
     ctx.floor_evaluations = n_hist * 3
     with common.workdir("C03") as wd:
         env = common.base_env(VERIF_POOL_ROOT=wd)
         with Pool(env=env) as pool:
             import itertools
-            for t, r in pool.imap(itertools.chain(gen(ctx, n_hist, steps), gen_corpus(ctx, n_corpus)), timeout=600):
+            for t, r in pool.imap(itertools.chain(gen(ctx, n_hist, steps), gen_corpus(ctx, n_corpus),
+                                                  gen(ctx, n_expl, steps, explore=True)), timeout=600):
                 if not r.get("ok"):
                     ctx.inconc("runner:" + ("timeout" if r.get("timeout") else "died" if r.get("died") else str(r.get("exc"))[:60]))
                     continue
@@ -151,6 +155,7 @@ def run(ctx: common.Ctx) -> None:
                         key = histgen.op_class(ops) + "|" + key
                     ctx.violation(key, f"daemon response differs from full run at step {st['i']} (ops {ops}, mode {st['mode']})",
                                   {"task": t, "step": st["i"], "daemon": st["out"], "oracle": st["oracle"]["out"],
-                                   "dstatus": st["status"], "ostatus": st["oracle"]["status"], "diffs": st.get("diffs")})
+                                   "dstatus": st["status"], "ostatus": st["oracle"]["status"], "diffs": st.get("diffs")},
+                                  case=f"{t['_k']}@{st['i']}")
                     ctx.cell("histories_cut_at_first_violation")
                     break
